@@ -264,7 +264,7 @@ func scenariosFor(tier string) []vrt.Scenario {
 		b = 2
 	}
 	// core: constant/users x {duration, cancel, limit}
-	add(b, cfg{mode: "constant", maxDur: ms(1010), cancelAt: never, body: "instant"})            // deadline coincides with the 1 s progress tick
+	add(b, cfg{mode: "constant", maxDur: ms(1010), cancelAt: never, body: "instant"}) // deadline coincides with the 1 s progress tick
 	add(b, cfg{mode: "constant", maxDur: ms(500), cancelAt: never, body: "sleep30"})
 	add(b, cfg{mode: "users", maxDur: ms(500), cancelAt: never, body: "sleep30"})
 	add(b, cfg{mode: "constant", maxDur: ms(2000), cancelAt: ms(150), body: "sleep30"})
